@@ -28,6 +28,10 @@ func init() {
 	reg1("C14Seq", SetupC14Seq, HarnessC14Seq)
 	reg1("C12History", SetupC12History, HarnessC12History)
 	reg0("C13Chain", HarnessC13Chain)
+	reg0("C18Ranges", HarnessC18Ranges)
+	reg0("C18Designate", HarnessC18Designate)
+	reg0("C18Single", HarnessC18Single)
+	reg0("C18Prefix", HarnessC18Prefix)
 	reg0("C19Options", HarnessC19Options)
 	reg0("C19ClientIP", HarnessC19ClientIP)
 	reg1("C14AB", SetupC14AB, HarnessC14AB)
